@@ -8,16 +8,18 @@ import (
 	"fmt"
 	"math/big"
 	"net"
+	"os"
 	"strings"
 	"sync"
+	"sync/atomic"
 	"time"
 
 	"github.com/DOSNetwork/core/dosnode"
 	"github.com/DOSNetwork/core/p2p"
 	"github.com/DOSNetwork/core/p2p/discover"
-	"github.com/DOSNetwork/core/sign/bls"
 	dkg "github.com/DOSNetwork/core/share/dkg/pedersen"
 	vss "github.com/DOSNetwork/core/share/vss/pedersen"
+	"github.com/DOSNetwork/core/sign/bls"
 	"github.com/golang/protobuf/proto"
 	"github.com/golang/protobuf/ptypes"
 	anypkg "github.com/golang/protobuf/ptypes/any"
@@ -152,7 +154,9 @@ func subC12Dkg(kind string) string {
 	}
 	if len(respKinds) > 0 {
 		time.Sleep(150 * time.Millisecond)
-		r := func(idx uint32, inner *vss.Response) *dkg.Response { return &dkg.Response{SessionId: sidA, Index: idx, Response: inner} }
+		r := func(idx uint32, inner *vss.Response) *dkg.Response {
+			return &dkg.Response{SessionId: sidA, Index: idx, Response: inner}
+		}
 		ok := &vss.Response{SessionID: make([]byte, 32), Index: 2, Status: true, Signature: make([]byte, 64)}
 		for _, k := range respKinds {
 			switch k {
@@ -214,13 +218,13 @@ type staticMembers struct {
 	addrs map[string]string
 }
 
-func (s *staticMembers) Join([]string) (int, error)                         { return 0, nil }
-func (s *staticMembers) Leave()                                             {}
+func (s *staticMembers) Join([]string) (int, error)                           { return 0, nil }
+func (s *staticMembers) Leave()                                               {}
 func (s *staticMembers) Listen(ctx context.Context, o chan discover.P2PEvent) { <-ctx.Done() }
-func (s *staticMembers) Lookup(id []byte) string                            { return s.addrs[string(id)] }
-func (s *staticMembers) NumOfPeers() int                                    { return len(s.addrs) }
-func (s *staticMembers) IsAlive() bool                                      { return true }
-func (s *staticMembers) MembersIP() []net.IP                                { return nil }
+func (s *staticMembers) Lookup(id []byte) string                              { return s.addrs[string(id)] }
+func (s *staticMembers) NumOfPeers() int                                      { return len(s.addrs) }
+func (s *staticMembers) IsAlive() bool                                        { return true }
+func (s *staticMembers) MembersIP() []net.IP                                  { return nil }
 func (s *staticMembers) MembersID() [][]byte {
 	var l [][]byte
 	for k := range s.addrs {
@@ -229,27 +233,73 @@ func (s *staticMembers) MembersID() [][]byte {
 	return l
 }
 
+// Ports for servers that bind by number (the p2p server takes a port string): taken from a range
+// below the kernel's ephemeral ports, a block per process, so that neither another process's
+// outgoing connection / ":0" listener nor another scenario process of this harness can take the
+// port between the probe and the server's own bind.
+var portNext int32
+
 func freePort() string {
-	l, err := net.Listen("tcp", "127.0.0.1:0")
-	if err != nil {
-		panic(err)
+	base := 10000 + (os.Getpid()%500)*40
+	for k := 0; k < 4000; k++ {
+		p := base + int(atomic.AddInt32(&portNext, 1)-1)%40
+		if k >= 40 { // the block is used up or taken: walk on through the range
+			p = 10000 + (base-10000+k)%20000
+		}
+		l, err := net.Listen("tcp", fmt.Sprintf("127.0.0.1:%d", p))
+		if err != nil {
+			continue
+		}
+		l.Close()
+		// the p2p server binds the wildcard address
+		l, err = net.Listen("tcp", fmt.Sprintf(":%d", p))
+		if err != nil {
+			continue
+		}
+		l.Close()
+		return fmt.Sprintf("%d", p)
 	}
-	defer l.Close()
-	return fmt.Sprintf("%d", l.Addr().(*net.TCPAddr).Port)
+	rigFail("no free port")
+	return ""
+}
+
+// rigFail: the scenario could not be set up (nothing was learnt about the code); the parent runs it again
+func rigFail(msg string) {
+	fmt.Fprintln(os.Stderr, "RIG-FAILURE: "+msg)
+	os.Exit(97)
 }
 
 func startServer(id string, port string, mem discover.Membership) p2p.P2PInterface {
-	s := p2p.VerifNewServer([]byte(id), net.IPv4(127, 0, 0, 1), port, mem, doubles.NopLogger{})
-	go s.Listen()
-	for i := 0; i < 200; i++ {
-		c, err := net.DialTimeout("tcp", "127.0.0.1:"+port, 50*time.Millisecond)
-		if err == nil {
-			c.Close()
-			break
+	for attempt := 0; attempt < 20; attempt++ {
+		s := p2p.VerifNewServer([]byte(id), net.IPv4(127, 0, 0, 1), port, mem, doubles.NopLogger{})
+		errc := make(chan error, 1)
+		go func() { errc <- s.Listen() }()
+		for i := 0; i < 200; i++ {
+			select {
+			case <-errc:
+				// Listen came back at once: the port could not be bound (somebody holds it for a moment)
+				i = 1000
+				continue
+			default:
+			}
+			c, err := net.DialTimeout("tcp", "127.0.0.1:"+port, 50*time.Millisecond)
+			if err == nil {
+				c.Close()
+				// it is OUR server that answers only if Listen is still running
+				select {
+				case <-errc:
+					i = 1000
+					continue
+				case <-time.After(2 * time.Millisecond):
+				}
+				return s
+			}
+			time.Sleep(5 * time.Millisecond)
 		}
-		time.Sleep(5 * time.Millisecond)
+		time.Sleep(50 * time.Millisecond)
 	}
-	return s
+	rigFail("the p2p server could not bind port " + port)
+	return nil
 }
 
 func writeFrame(c net.Conn, b []byte) error {
@@ -570,8 +620,13 @@ func runC12Jobs(jobs []*c12job, w *hx.Writer) {
 			var out, class, lastPanic string
 			// a scenario that merely did not finish in time is run again (wall-clock bound, loaded
 			// machine); a crash is reported at once
-			for attempt := 0; attempt <= j.retry; attempt++ {
+			for attempt, rig := 0, 0; attempt <= j.retry; attempt++ {
 				out, class, lastPanic = runSubQuiet(j.sub, j.arg, j.timeout)
+				if class == "R" && rig < 3 { // the scenario could not be set up: not an attempt
+					rig++
+					attempt--
+					continue
+				}
 				if class == "P" {
 					break
 				}
@@ -599,6 +654,9 @@ func runC12Jobs(jobs []*c12job, w *hx.Writer) {
 				}
 			}
 			switch {
+			case class == "R":
+				impl = "R"
+				oracle = hx.Fail("rig", "the scenario could not be set up in four attempts (ports): "+lastPanic)
 			case class == "P":
 				impl = hx.P
 				oracle = hx.Fail(explain("P", out, lastPanic))
